@@ -180,6 +180,9 @@ class KindAnalysis:
                         elif rv.get("agg") == "array":
                             for o in rv["ops"]:
                                 ks |= op_kind(o)
+                        elif rv.get("agg") == "adt" and rv["adt"].startswith("std::ops::Range"):
+                            for o in rv["ops"]:
+                                ks |= {x for x in op_kind(o) if x in SIDE}
                     if not lhs["p"]:
                         changed |= add(lhs["l"], ks)
                         # tuple-typed moves keep per-field kinds
@@ -231,6 +234,8 @@ class KindAnalysis:
                                     if tgt is not None:
                                         for a in t["args"][1:]:
                                             changed |= add(tgt, op_kind(a))
+                                        if name == "insert" and len(t["args"]) >= 3:
+                                            changed |= add((tgt, "key"), op_kind(t["args"][1]))
                                 ks = set()
                             # tuple-valued pass-through (Try::branch / unwrap of a tuple result)
                             pl0 = op_place(t["args"][0])
@@ -379,6 +384,20 @@ class KindAnalysis:
                                "container indexed by %s ids is indexed with a %s value" % (
                                    want, "/".join(sorted(have)) or "role-neutral")
                                + ("" if bad is None else " - lookup on the wrong side"))
+                # lookups in a local map whose keys have a known side
+                if (c.get("name") in ("get", "get_mut", "contains_key", "remove", "index", "entry")
+                        and len(t["args"]) >= 2):
+                    pl0 = op_place(t["args"][0])
+                    tgt = container_local(fa, pl0) if pl0 is not None else None
+                    kk = {k for k in kinds.get((tgt, "key"), ()) if k in SIDE} if tgt is not None else set()
+                    hk = {k for k in op_kind(t["args"][1]) if k in SIDE}
+                    if kk and hk:
+                        nsinks += 1
+                        ok = bool(kk & hk)
+                        report("KIND-INDEX", "local-map|%s" % "/".join(sorted(kk)), ok, fa.loc(b),
+                               "map keyed by %s ids is looked up with a %s value" % (
+                                   "/".join(sorted(kk)), "/".join(sorted(hk)))
+                               + ("" if ok else " - the id comes from the other side's id space"))
                 # formatted output into a kinded writer
                 if any(x.endswith("Write::write_fmt") for x in ps) and len(t["args"]) >= 2:
                     wk = {k for k in op_kind(t["args"][0]) if k in SIDE}
